@@ -112,6 +112,12 @@ def _run_units(units, repo, verif, work, tier, jobs=None):
     if not live:
         return list(results.values())
     jobs = jobs or int(os.environ.get('VERIF_KANI_JOBS', '8'))
+    # memory: some units need several GB per harness (62 GB machine, no swap): cap the number of parallel CBMC runs
+    if tier != 'quick':
+        for u in units:
+            cap = config.UNITS[u].get('max_jobs_thorough')
+            if cap:
+                jobs = min(jobs, cap)
     cmd = ['cargo', 'kani', '-Z', 'function-contracts', '-Z', 'stubbing', '--output-format', 'terse', '-j', str(jobs), '--exact']
     for u, h in live:
         cmd += ['--harness', full_name(u, h['name'])]
